@@ -342,3 +342,50 @@ func vpH_C17_T_round() {
 	vpAssert("C17.round-follower-after", !e.IsLeader())
 	_ = e.Stop()
 }
+
+// vpH_C17_T_round_flapping_record: one acquisition round of a takeover-enabled candidate against a record that
+// flaps: each refused Create is followed by the record's deletion, and the record is back (another owner of
+// higher priority) right after the candidate's next read. The round still makes at most four attempts, each
+// a full backoff after the previous one.
+func vpH_C17_T_round_flapping_record() {
+	H := time.Second
+	st := vpNewStore("g", 0)
+	st.watchMode = 1
+	st.write("env:other", "create", vpRecMk("other", "tok-other", 9), false, 0)
+	kv := vpHandle(st, "a")
+	cfg := vpBaseConfig("a", H, 3*H)
+	cfg.Priority = 5
+	cfg.AllowPriorityTakeover = true
+	e := vpMustNew(&vpProvider{kv}, cfg)
+	_ = e.Start(vpRootCtx())
+	time.Sleep(H)
+	vpQuiesce()
+	base := len(st.issued)
+	kv.opLeft = 60
+	kv.afterApply = func(op string) {
+		switch {
+		case op == "create" && st.live() && st.writer == "env:other":
+			st.noEvents = true
+			st.write("env:other", "delete", nil, true, 0)
+		case op == "get" && !st.live():
+			st.noEvents = true
+			st.write("env:other", "create", vpRecMk("other", "tok-other", 9), false, 0)
+		}
+	}
+	e.attemptAcquireWithRetry(e.ctx)
+	vpCover("C17.round-flapping-record")
+	var times []int64
+	for _, is := range st.issued[base:] {
+		if is.op == "create" {
+			times = append(times, is.at)
+		}
+	}
+	vpAssert("C17.round-attempts", len(times) >= 1 && len(times) <= 4)
+	bc := DefaultBackoffConfig()
+	for k := 0; k+1 < len(times); k++ {
+		b := float64(bc.InitialBackoff) * math.Pow(bc.BackoffMultiplier, float64(k))
+		gap := float64(times[k+1] - times[k])
+		vpAssert("C17.round-backoff", gap >= b*(1-bc.Jitter)-1)
+	}
+	_ = e.Stop()
+}
